@@ -9,8 +9,9 @@
 // values are NOT computed here - spec/ConfigQueryTrace.tla computes them from the TLA+ definitions.
 //
 // Strings are sequences of tokens; tokChr is the fixed token -> characters table (the same as Chr in
-// spec/ConfigQuery.tla).  Its side conditions (prefix-free; which token strings are run type names, booleans,
-// "process") are checked against the real enum / strconv.ParseBool at start-up.
+// spec/ConfigQuery.tla): all of printable ASCII, a few non-ASCII characters, a few words.  The model judges a token
+// sequence by what it spells; the real tables it relies on (run type names, ParseBool, "process") are recorded in a
+// "Table" line and compared by the trace specification.
 package main
 
 import (
@@ -36,18 +37,49 @@ import (
 	"verif/harness/vtrace"
 )
 
-var tokChr = map[string]string{
-	"a": "a", "b": "b", "p": "process", "t": "true",
-	"X": "X", "7": "7", "0": "0", "-": "-", "_": "_",
-	"P": "PHYSICS", "A": "ANY",
-	"/": "/", " ": " ", "T": "\t", "N": "\n",
-	",": ",", "Q": "\"", "[": "[", "]": "]",
-	"=": "=", "&": "&", "@": "@", ".": ".",
-}
+// tokChr: every printable ASCII character is a token named by itself, except that the names p t P A T N Q belong to
+// the words / control characters below (those seven letters are named ~p ... ~Q) and the double quote is named Q;
+// a few non-ASCII characters are named by their code point.  Same table as Chr in spec/ConfigQuery.tla.
+var tokChr = func() map[string]string {
+	m := map[string]string{
+		"p": "process", "t": "true", "P": "PHYSICS", "A": "ANY", "T": "\t", "N": "\n", "Q": "\"",
+		"u00A0": "\u00a0", "u2003": "\u2003", "u00E9": "\u00e9", "u03A9": "\u03a9",
+	}
+	for c := rune(0x20); c <= 0x7e; c++ {
+		name := string(c)
+		switch c {
+		case 'p', 't', 'P', 'A', 'T', 'N', 'Q':
+			name = "~" + name
+		case '"':
+			continue // named Q
+		}
+		m[name] = string(c)
+	}
+	return m
+}()
 
-// tokens of the class [A-Z0-9-_] (candidates for a run type segment) and of the value class
-var uwordToks = []string{"X", "7", "0", "-", "_", "P", "A"}
-var vwordToks = []string{"a", "b", "p", "t", "X", "7", "0", "-", "_", "P", "A", ",", "Q", "[", "]"}
+// esc transliterates non-ASCII characters in every recorded string (TLA+ string literals are ASCII)
+func esc(s string) string {
+	ascii := true
+	for i := 0; i < len(s); i++ {
+		if s[i] >= 0x80 {
+			ascii = false
+			break
+		}
+	}
+	if ascii {
+		return s
+	}
+	var b strings.Builder
+	for _, r := range s {
+		if r < 0x80 {
+			b.WriteRune(r)
+		} else {
+			fmt.Fprintf(&b, "<U+%04X>", r)
+		}
+	}
+	return b.String()
+}
 
 var litStr = map[string]string{"L": "lit ", "J": "x=\n "}
 var valStr = map[string]string{"V": "val", "W": "w w", "E": "", "B": "{{ w }}", "Q": "[\"a\",\"b\"]", "H": "<a&b>'",
@@ -62,79 +94,28 @@ func fatal(f string, a ...interface{}) {
 	os.Exit(3)
 }
 
-func checkTable() {
-	// prefix-free => every string has at most one token decomposition
-	for k1, s1 := range tokChr {
-		for k2, s2 := range tokChr {
-			if k1 != k2 && strings.HasPrefix(s2, s1) {
-				fatal("token table not prefix-free: %q (%s) is a prefix of %q (%s)", s1, k1, s2, k2)
-			}
-		}
-	}
-	// IsEnum(seg) == seg is the single token P or A: no other sequence of [A-Z0-9-_] tokens spells a RunType name
+// emitTable records the real tables the model's judgement of spelled strings relies on (EnumNames, TrueStrings,
+// FalseStrings, ProcessKey in spec/ConfigQuery.tla); the trace specification compares them.
+func emitTable(rec *vtrace.Recorder) {
+	enums := make([]string, 0, len(apricotpb.RunType_value))
 	for name := range apricotpb.RunType_value {
-		if dec := decompose(name, uwordToks); dec != nil {
-			if !(len(dec) == 1 && (dec[0] == "P" || dec[0] == "A")) {
-				fatal("run type name %q is spelled by tokens %v", name, dec)
+		enums = append(enums, name)
+	}
+	sort.Strings(enums)
+	trues, falses := []string{}, []string{}
+	for _, c := range []string{"1", "t", "T", "TRUE", "true", "True", "0", "f", "F", "FALSE", "false", "False",
+		"", "2", "-1", "yes", "no", "y", "n", "on", "off", "tRUE", "truE", "tr", "fALSE", "Yes", "TRUE ", " true", "01", "00"} {
+		if v, err := strconv.ParseBool(c); err == nil {
+			if v {
+				trues = append(trues, c)
+			} else {
+				falses = append(falses, c)
 			}
 		}
 	}
-	for _, t := range []string{"P", "A"} {
-		if _, ok := apricotpb.RunType_value[tokChr[t]]; !ok {
-			fatal("token %s (%s) is not a run type name", t, tokChr[t])
-		}
-	}
-	// IsBool(seg) == seg is the single token t or 0; the key "process" is the single token p
-	var rec func(prefix []string, depth int)
-	rec = func(prefix []string, depth int) {
-		if len(prefix) > 0 {
-			s := ""
-			for _, t := range prefix {
-				s += tokChr[t]
-			}
-			_, err := strconv.ParseBool(s)
-			isBoolTok := len(prefix) == 1 && (prefix[0] == "t" || prefix[0] == "0")
-			if (err == nil) != isBoolTok {
-				fatal("ParseBool(%q) from tokens %v contradicts the table", s, prefix)
-			}
-			if (s == "process") != (len(prefix) == 1 && prefix[0] == "p") {
-				fatal("\"process\" spelled by tokens %v", prefix)
-			}
-		}
-		if depth == 0 {
-			return
-		}
-		for _, t := range vwordToks {
-			rec(append(append([]string{}, prefix...), t), depth-1)
-		}
-	}
-	rec(nil, 3)
-	if b, _ := strconv.ParseBool("true"); !b {
-		fatal("ParseBool(true)")
-	}
-	if b, _ := strconv.ParseBool("0"); b {
-		fatal("ParseBool(0)")
-	}
-}
-
-// decompose s into the given tokens' strings (nil if impossible); the table is prefix-free so greedy works
-func decompose(s string, toks []string) []string {
-	out := []string{}
-	for len(s) > 0 {
-		found := false
-		for _, t := range toks {
-			if strings.HasPrefix(s, tokChr[t]) {
-				out = append(out, t)
-				s = s[len(tokChr[t]):]
-				found = true
-				break
-			}
-		}
-		if !found {
-			return nil
-		}
-	}
-	return out
+	p, err := componentcfg.NewQueryParameters("process=false&processs=x&Process=y")
+	procOnly := err == nil && !p.ProcessTemplates && len(p.VarStack) == 2
+	rec.Emit("Table", "enums", enums, "trues", trues, "falses", falses, "processkey", procOnly)
 }
 
 func str(toks []string) string {
@@ -179,14 +160,14 @@ func doStr(rec *vtrace.Recorder, scn int, c *tcase) {
 	s := str(c.S)
 	full := M{"ok": false, "comp": "", "rt": "", "role": "", "entry": "", "raw": "", "path": "", "abs": ""}
 	if q, err := componentcfg.NewQuery(s); err == nil {
-		full = M{"ok": true, "comp": q.Component, "rt": apricotpb.RunType_name[int32(q.RunType)], "role": q.RoleName,
-			"entry": q.EntryKey, "raw": q.Raw(), "path": q.Path(), "abs": q.AbsoluteRaw()}
+		full = M{"ok": true, "comp": esc(q.Component), "rt": apricotpb.RunType_name[int32(q.RunType)], "role": esc(q.RoleName),
+			"entry": esc(q.EntryKey), "raw": esc(q.Raw()), "path": esc(q.Path()), "abs": esc(q.AbsoluteRaw())}
 	}
 	ent := M{"ok": false, "comp": "", "rt": "", "role": ""}
 	if q, err := componentcfg.NewEntriesQuery(s); err == nil {
-		ent = M{"ok": true, "comp": q.Component, "rt": apricotpb.RunType_name[int32(q.RunType)], "role": q.RoleName}
+		ent = M{"ok": true, "comp": esc(q.Component), "rt": apricotpb.RunType_name[int32(q.RunType)], "role": esc(q.RoleName)}
 	}
-	rec.Emit("Str", "scn", scn, "s", c.S, "str", s, "full", full, "ent", ent,
+	rec.Emit("Str", "scn", scn, "s", c.S, "str", esc(s), "full", full, "ent", ent,
 		"valid", M{"full": componentcfg.IsStringValidQueryPath(s), "ent": componentcfg.IsStringValidEntriesQueryPath(s)})
 }
 
@@ -201,11 +182,11 @@ func doPar(rec *vtrace.Recorder, scn int, c *tcase) {
 		sort.Strings(keys)
 		vars := make([][]string, 0, len(keys))
 		for _, k := range keys {
-			vars = append(vars, []string{k, p.VarStack[k]})
+			vars = append(vars, []string{esc(k), esc(p.VarStack[k])})
 		}
 		res = M{"ok": true, "proc": p.ProcessTemplates, "vars": vars}
 	}
-	rec.Emit("Par", "scn", scn, "s", c.S, "str", s, "res", res)
+	rec.Emit("Par", "scn", scn, "s", c.S, "str", esc(s), "res", res)
 }
 
 // backend file: o2/components/<component>/<RUNTYPE>/<role>/<entry...> = payload (JSON is YAML flow syntax)
@@ -727,7 +708,6 @@ func main() {
 	flag.Parse()
 	logrus.SetOutput(io.Discard)
 	logrus.SetLevel(logrus.PanicLevel)
-	checkTable()
 
 	in, err := os.Open(*casesPath)
 	if err != nil {
@@ -738,6 +718,7 @@ func main() {
 	if err != nil {
 		fatal("%v", err)
 	}
+	emitTable(rec)
 	tmp, err := os.MkdirTemp("", "c20be")
 	if err != nil {
 		fatal("%v", err)
